@@ -38,6 +38,16 @@ def boot_history(rng, cfg):
         add_file('/BOOT%d.;1' % i, sz, 'boot%d.img' % i, extra)
         if rng.random() < 0.5:
             add_file('/' + syslevel.iso_file_name(cfg, 70 + i), rng.choice(syslevel.SIZES))     # data after the boot file
+    if rng.random() < 0.6:
+        # an ordinary file that carries the catalog's identifier in ANOTHER directory
+        d = {'k': 'add_dir', 'iso': '/BACKUP'}
+        if cfg.rr:
+            d['rr'] = 'backup'
+        if cfg.joliet:
+            d['jol'] = '/backup'
+        ops.append(d)
+        extra = {'jol': '/backup/boot.cat'} if cfg.joliet else {}
+        add_file('/BACKUP/BOOT.CAT;1', 777, 'boot.cat', extra)
     first = {'k': 'add_eltorito', 'bootfile': '/BOOT0.;1', 'catalog': '/BOOT.CAT;1'}
     if cfg.rr:
         first['rr'] = 'boot.cat'
